@@ -175,13 +175,22 @@ Proof. exact delete_v0_refuted. Qed.
    the faithful model and replayed on the crate by ./check.  Content and resources are those of the abstract
    document of Spec/AbstractDoc.v (ISO 32000 semantics: nearest inherited Resources; Contents a stream or an
    array of streams behind any references). *)
-Theorem C11_resources_shadow_refuted :
+(* repaired (fix: commit recorded for C11-resources-shadow in known_findings.json): before it, get_or_create_resources
+   gave a page that only inherits Resources an EMPTY own dictionary, hiding the inherited one (Model/EditV0.v) *)
+Theorem C11_resources_shadow_v0_refuted :
   KnownClass_resources_shadow ex_doc (3, 0)%N = true /\
-  exists d', step O0 ex_doc (AddXObject (3, 0)%N K_Im1 (5, 0)%N) = (d', OOk) /\
+  exists d', add_xobject_v0 ex_doc (3, 0)%N K_Im1 (5, 0)%N = (d', OOk) /\
              effective_resources (d_objects ex_doc) (3, 0)%N = Some [(K_Font, K_F1, ORef 6 0)] /\
              effective_resources (d_objects d') (3, 0)%N = Some [(K_XObject, K_Im1, ORef 5 0)] /\
              ~ res_le (effective_resources (d_objects ex_doc) (3, 0)%N) (effective_resources (d_objects d') (3, 0)%N).
-Proof. exact resources_shadow_witness. Qed.
+Proof. exact resources_shadow_v0_witness. Qed.
+
+(* the repaired code on the same document: the page keeps the inherited font and gains the XObject; its sibling is untouched *)
+Theorem C11_resources_shadow_repaired_example :
+  exists d', step O0 ex_doc (AddXObject (3, 0)%N K_Im1 (5, 0)%N) = (d', OOk) /\
+             effective_resources (d_objects d') (3, 0)%N = Some [(K_Font, K_F1, ORef 6 0); (K_XObject, K_Im1, ORef 5 0)] /\
+             effective_resources (d_objects d') (4, 0)%N = Some [(K_Font, K_F1, ORef 6 0)].
+Proof. exact resources_shadow_repaired_example. Qed.
 
 Theorem C11_content_shared_refuted :
   KnownClass_content_shared ex_doc (3, 0)%N = true /\
@@ -269,7 +278,8 @@ Print Assumptions C11_delete_no_reference_left.
 Print Assumptions C11_delete_frame.
 Print Assumptions C11_strip_no_reference.
 Print Assumptions C11_delete_v0_refuted.
-Print Assumptions C11_resources_shadow_refuted.
+Print Assumptions C11_resources_shadow_v0_refuted.
+Print Assumptions C11_resources_shadow_repaired_example.
 Print Assumptions C11_content_shared_refuted.
 Print Assumptions C11_content_indirect_refuted.
 Print Assumptions C11_add_page_contents_content.
